@@ -291,6 +291,12 @@ def run(repo: Repo, rep: Report, tier: str) -> None:
     # R9.8 the compare covers the core wherever it lives (shared with C10/R10.6)
     c10.diff_coverage(repo, rep, "R9.8", gen, diff_body)
 
+    # R9.9 output is independent of prior runs: the shared-core registry entry of a client is overwritten with its current codes and the
+    # aliases are regenerated from the union (rules of C11/R11.1)
+    from rules._reuse import reuse
+
+    reuse(repo, rep, "c11", {"R11.1": "R9.9"})
+
     # R9.7b emit-time renaming of IR names must be idempotent (test, loop, record)
     _idempotent_renames(repo, rep)
 
